@@ -1611,6 +1611,51 @@ where
 // TESTS
 // =============================================================================
 
+/// Raw mutators for stored-state fault injection (verification builds only).
+///
+/// These bypass every invariant on purpose: they exist so that a simulator can corrupt a valid
+/// complex (dangling / one-way neighbours, wrong mirror slots, repeated or reordered vertices)
+/// and check that the validators of the owning level reject it.
+#[cfg(delaunay_verif)]
+impl<T, U, V, const D: usize> Cell<T, U, V, D>
+where
+    U: DataType,
+    V: DataType,
+{
+    /// Overwrite vertex slot `index` (no-op when out of range).
+    pub fn verif_set_vertex_slot(&mut self, index: usize, vertex_key: VertexKey) {
+        if let Some(slot) = self.vertices.get_mut(index) {
+            *slot = vertex_key;
+        }
+    }
+
+    /// Overwrite neighbour slot `index`, creating the neighbour buffer if absent.
+    pub fn verif_set_neighbor_slot(&mut self, index: usize, neighbor: Option<CellKey>) {
+        if self.neighbors.is_none() {
+            let mut buffer = NeighborBuffer::new();
+            buffer.resize(D + 1, None);
+            self.neighbors = Some(buffer);
+        }
+        if let Some(slot) = self.neighbors.as_mut().and_then(|b| b.get_mut(index)) {
+            *slot = neighbor;
+        }
+    }
+
+    /// Swap two vertex slots; `with_neighbors` also swaps the matching neighbour slots.
+    pub fn verif_swap_slots(&mut self, a: usize, b: usize, with_neighbors: bool) {
+        if a < self.vertices.len() && b < self.vertices.len() {
+            self.vertices.swap(a, b);
+            if with_neighbors
+                && let Some(neighbors) = self.neighbors.as_mut()
+                && a < neighbors.len()
+                && b < neighbors.len()
+            {
+                neighbors.swap(a, b);
+            }
+        }
+    }
+}
+
 #[cfg(test)]
 mod tests {
     use super::*;
